@@ -64,7 +64,9 @@ def pocketRows (cfg : TblCfg) (tol : Rat) (cH cNP : Nat) (above : Bool) (rows : 
   let r ← closeInsert cfg tol cH above rows i0 e pinch
   let i0' : Int := if above then i0 else i0 + (r.2 : Int)
   let h0 ← cellAt r.1 cH i0'
-  pure (if above then flatten r.1 cNP (i0' + 1) e h0 else flatten r.1 cNP (e + 1) (i0' - 1) h0, r.2)
+  -- below the pinch the exit row itself is flattened when no closing row was inserted
+  let lo : Int := if r.2 = 0 ∧ e ≠ pinch then e else e + 1
+  pure (if above then flatten r.1 cNP (i0' + 1) e h0 else flatten r.1 cNP lo (i0' - 1) h0, r.2)
 
 /-- The pocket branch of one iteration. -/
 def pocketStep (cfg : TblCfg) (tol : Rat) (cH cNP : Nat) (above : Bool) (st : Sweep) (i pinch : Int) :
